@@ -19,8 +19,10 @@ import os as _os
 FRESH_QFBV = bool(_os.environ.get('SYMX_FRESH'))
 # z3 resource limits instead of wall-clock timeouts: deterministic, and no timer threads (check() with a short
 # 'timeout' was seen to hang forever inside z3 5.1 after ~16000 calls)
-INCR_SLICE_RLIMIT = 400000
-FRESH_RLIMIT = 400000000
+INCR_SLICE_RLIMIT = int(_os.environ.get('SYMX_SLICE', '400000'))
+FRESH_AFTER = int(_os.environ.get('SYMX_FRESH_AFTER', '3'))
+LOOSE_DECODE = False
+FRESH_RLIMIT = 30000000        # ~10 s of z3 work; beyond it the obligation is reported inconclusive
 
 
 class EngineLimit(BaseException):
@@ -53,6 +55,8 @@ class Explorer:
         self.ndec = 0
         self.unknowns = 0
         self.conc_cap = CONC_CAP
+        self.path_budget_s = 60
+        self.path_t0 = time.time()
         self.max_decisions = MAX_DECISIONS
         self.slow = []          # (seconds, tag) of slow queries
 
@@ -63,6 +67,7 @@ class Explorer:
         self.pc = []
         self.known = {}
         self.model = None
+        self.path_t0 = time.time()
         # a new solver object per path: Solver.reset() was seen to leave z3 in a state where a trivial check() never returns
         self.solver = z3.Solver()
         self.solver.set('rlimit', INCR_SLICE_RLIMIT)
@@ -100,6 +105,8 @@ class Explorer:
 
     def check(self, *extra):
         t = time.time()
+        if t - self.path_t0 > self.path_budget_s:
+            raise EngineLimit('path exceeds its wall-time budget of %ds' % self.path_budget_s)
         if self.fresh_mode:
             r = self._check_fresh(extra)
         else:
@@ -107,7 +114,7 @@ class Explorer:
             if r == z3.unknown:
                 # the incremental core runs under a short time slice; hard queries go to the one-shot solver
                 self.fallbacks += 1
-                if self.fallbacks >= 3:
+                if self.fallbacks >= FRESH_AFTER:
                     self.fresh_mode = True
                 r = self._check_fresh(extra)
             elif r == z3.sat:
@@ -912,6 +919,10 @@ class SymBytes:
         if enc in ('utf-8', 'utf8', 'ascii'):
             if land(*[(b < 0x80) for b in self.items]):
                 return SymStr(self.items)
+            if LOOSE_DECODE and errors == 'replace':
+                # harnesses that never look at the text (C19 termination) may ask for an approximation:
+                # every non-ASCII byte becomes U+FFFD (exact only for invalid single bytes)
+                return SymStr([ite(b < 0x80, b, 0xfffd) for b in self.items])
             raise EngineLimit('decode of non-ASCII symbolic bytes (outside claim)')
         raise EngineLimit('decode(%s) of symbolic bytes' % encoding)
 
